@@ -141,4 +141,13 @@ CHECKS = {
         "design_ref": "DESIGN.md section 3, C10",
         "note": "The problem object is built exactly as Calibration.run_calibration builds it. Synchronous dask scheduler (schedulers are C07's subject).",
     },
+    "C11": {
+        "technique": "property-based testing against a numpy re-implementation of the three fitness functions on analytically recomputed simulated data; accept/reject classification of generated fit-range pairs; re-simulation differential of reported champions in real runs",
+        "text": "Generated targets (npy/fits/txt, 2-D or cubes), 1..3 target/input pairs, fit-range classes (default, full, equal sub-range, shifted, unequal extent, exceeding the target; 4- and 6-element), "
+                "scalar or file weights and the three built-in fitness functions: problem.fitness(dv) must equal the declared figure of merit recomputed in the harness; invalid range pairs must be refused before any "
+                "evaluation and valid ones accepted. In short real runs the reported champion fitness must be reproduced by re-simulating the reported parameters, /simulated and /full_size must be computable and equal "
+                "the re-simulation, and the champion fitness must not increase over evolutions. Exploration.",
+        "design_ref": "DESIGN.md section 3, C11",
+        "note": "Tolerance 1e-9 relative. reduced chi-squared with fewer data points than free parameters is outside its domain (counted as excluded).",
+    },
 }
